@@ -265,6 +265,30 @@ func newPair() (c, s *pconn, w *wire) {
 	return &pconn{in: s2c, out: c2s, w: w}, &pconn{in: c2s, out: s2c, w: w}, w
 }
 
+// prefixReader feeds fixed bytes first (a pre-computed ephemeral secret for the real side), then `rest`.
+type prefixReader struct {
+	pre  []byte
+	rest io.Reader
+}
+
+func (p *prefixReader) Read(b []byte) (int, error) {
+	if len(p.pre) > 0 {
+		n := copy(b, p.pre)
+		p.pre = p.pre[n:]
+		return n, nil
+	}
+	return p.rest.Read(b)
+}
+
+// leadingZeros: zero bytes at the start of a fixed-width big-endian secret
+func leadingZeros(s []byte) int {
+	z := 0
+	for z < len(s) && s[z] == 0 {
+		z++
+	}
+	return z
+}
+
 // ---------------------------------------------------------------- scripted peers
 
 var lowOrder = []string{
@@ -482,6 +506,9 @@ func peerServer(m *method, c *pconn, t string, r *hx.Rand, hkBlob []byte, o hx.O
 		rr := rd{pkt[1:], true}
 		e := rr.mpint()
 		y := randBelow(r, new(big.Int).Sub(m.p, one))
+		if o.Has("pp") {
+			y = new(big.Int).SetBytes(o.Hex("pp"))
+		}
 		f := new(big.Int).Exp(two, y, m.p)
 		enc, honest := tamperDH(vt, f, m.p, r)
 		if honest && e.Sign() > 0 {
@@ -561,6 +588,9 @@ func peerServer(m *method, c *pconn, t string, r *hx.Rand, hkBlob []byte, o hx.O
 			return
 		}
 		y := randBelow(r, new(big.Int).Rsh(p, 1))
+		if o.Has("pp") {
+			y = new(big.Int).SetBytes(o.Hex("pp"))
+		}
 		f := new(big.Int).Exp(g, y, p)
 		var enc []byte
 		var honest bool
@@ -582,6 +612,33 @@ func peerServer(m *method, c *pconn, t string, r *hx.Rand, hkBlob []byte, o hx.O
 		rr := rd{pkt[1:], true}
 		qc := rr.str()
 		priv, _ := m.curve.GenerateKey(r)
+		if strings.HasPrefix(vt, "lz") {
+			// go1.26 ignores the rand argument of ecdsa.GenerateKey, so the real client's key cannot be fixed:
+			// choose the peer's scalar b = 1, 2, 3, … online until the x-coordinate of b·Q_C starts with the
+			// wanted number of zero bytes (one point addition per try)
+			want := int(vt[2] - '0')
+			bl := (m.ecl.Params().BitSize + 7) / 8
+			if len(qc) == 1+2*bl && qc[0] == 4 {
+				qx, qy := new(big.Int).SetBytes(qc[1:1+bl]), new(big.Int).SetBytes(qc[1+bl:])
+				sx, sy := new(big.Int).Set(qx), new(big.Int).Set(qy)
+				buf := make([]byte, bl)
+				for b := int64(1); b < 1<<22; b++ {
+					if b > 1 {
+						sx, sy = m.ecl.Add(sx, sy, qx, qy)
+					}
+					if 8*bl-sx.BitLen() >= 8*want && leadingZeros(sx.FillBytes(buf)) == want &&
+						(len(vt) < 4 || (vt[3] == 's') == (buf[want]&0x80 != 0)) { // lzNs: sign-byte case, lzNn: not
+						sc := make([]byte, bl)
+						big.NewInt(b).FillBytes(sc)
+						if pk, err := m.curve.NewPrivateKey(sc); err == nil {
+							priv = pk
+						}
+						break
+					}
+				}
+			}
+			vt = "-"
+		}
 		enc, honest := tamperEC(vt, m.ecl, priv.PublicKey().Bytes(), r)
 		if honest {
 			if pub, err := m.curve.NewPublicKey(qc); err == nil {
@@ -592,7 +649,11 @@ func peerServer(m *method, c *pconn, t string, r *hx.Rand, hkBlob []byte, o hx.O
 	case "c25519":
 		rr := rd{pkt[1:], true}
 		qc := rr.str()
-		priv, _ := ecdh.X25519().NewPrivateKey(r.Bytes(32))
+		sk := r.Bytes(32)
+		if o.Has("pp") {
+			sk = o.Hex("pp")
+		}
+		priv, _ := ecdh.X25519().NewPrivateKey(sk)
 		enc, honest := tamperX25519(vt, priv.PublicKey().Bytes(), r)
 		if honest {
 			if pub, err := ecdh.X25519().NewPublicKey(qc); err == nil {
@@ -663,6 +724,9 @@ func peerClient(m *method, c *pconn, t string, r *hx.Rand, o hx.Op) (or oracle) 
 	switch m.kind {
 	case "dh":
 		x := randBelow(r, new(big.Int).Sub(m.p, one))
+		if o.Has("pp") {
+			x = new(big.Int).SetBytes(o.Hex("pp"))
+		}
 		e := new(big.Int).Exp(two, x, m.p)
 		enc, honest := tamperDH(vt, e, m.p, r)
 		send(30, enc)
@@ -689,6 +753,9 @@ func peerClient(m *method, c *pconn, t string, r *hx.Rand, o hx.Op) (or oracle) 
 			return
 		}
 		x := randBelow(r, new(big.Int).Rsh(p, 1))
+		if o.Has("pp") {
+			x = new(big.Int).SetBytes(o.Hex("pp"))
+		}
 		e := new(big.Int).Exp(g, x, p)
 		enc, honest := tamperDH(vt, e, p, r)
 		send(32, enc)
@@ -702,6 +769,9 @@ func peerClient(m *method, c *pconn, t string, r *hx.Rand, o hx.Op) (or oracle) 
 		}
 	case "ecdh":
 		priv, _ := m.curve.GenerateKey(r)
+		if strings.HasPrefix(vt, "lz") {
+			vt = "-" // the caller repeats the exchange until the secret has the wanted leading zero bytes
+		}
 		enc, honest := tamperEC(vt, m.ecl, priv.PublicKey().Bytes(), r)
 		send(30, wStr(enc))
 		_, rr := readReply()
@@ -715,7 +785,11 @@ func peerClient(m *method, c *pconn, t string, r *hx.Rand, o hx.Op) (or oracle) 
 			}
 		}
 	case "c25519":
-		priv, _ := ecdh.X25519().NewPrivateKey(r.Bytes(32))
+		sk := r.Bytes(32)
+		if o.Has("pp") {
+			sk = o.Hex("pp")
+		}
+		priv, _ := ecdh.X25519().NewPrivateKey(sk)
 		enc, honest := tamperX25519(vt, priv.PublicKey().Bytes(), r)
 		send(30, wStr(enc))
 		_, rr := readReply()
@@ -898,26 +972,42 @@ func execKex(o hx.Op) string {
 		}
 	}
 	r := hx.NewRand(o.U64("seed"))
-	rc := r.Fork() // the real client's randomness (only DH/GEX/X25519 use it in go1.26)
+	// the real sides' randomness (only DH/GEX/X25519/ML-KEM key generation honours it in go1.26); `cr=` / `sr=`
+	// put a pre-computed ephemeral secret in front
+	var rc io.Reader = r.Fork()
+	var rs io.Reader = rand.Reader
+	if o.Has("cr") {
+		rc = &prefixReader{pre: o.Hex("cr"), rest: rc}
+	}
+	if o.Has("sr") {
+		rs = &prefixReader{pre: o.Hex("sr"), rest: rs}
+	}
 	cc, sc, w := newPair()
 	out := "r"
 	switch o.Str("mode") {
 	case "rr":
 		var cr, sr *ssh.VerifKexResult
 		var cerr, serr error
-		var wg sync.WaitGroup
-		wg.Add(2)
-		go func() {
-			defer wg.Done()
-			defer cc.done()
-			cr, cerr = ssh.VerifKexClient(m.name, cc, rc, vc, vs, ic, is)
-		}()
-		go func() {
-			defer wg.Done()
-			defer sc.done()
-			sr, serr = ssh.VerifKexServer(m.name, sc, rand.Reader, svc, svs, sic, sis, []ssh.Signer{hk.signer}, algo)
-		}()
-		wg.Wait()
+		for attempt := 0; ; attempt++ {
+			var wg sync.WaitGroup
+			wg.Add(2)
+			go func() {
+				defer wg.Done()
+				defer cc.done()
+				cr, cerr = ssh.VerifKexClient(m.name, cc, rc, vc, vs, ic, is)
+			}()
+			go func() {
+				defer wg.Done()
+				defer sc.done()
+				sr, serr = ssh.VerifKexServer(m.name, sc, rs, svc, svs, sic, sis, []ssh.Signer{hk.signer}, algo)
+			}()
+			wg.Wait()
+			// ECDH keys cannot be fixed (go1.26): repeat until the shared x-coordinate starts with zero bytes
+			if want := lzWant(o, m); want == 0 || cr == nil || mpintZeros(cr.K, m) >= want || attempt >= 1<<13 {
+				break
+			}
+			cc, sc, w = newPair()
+		}
 		out += resStr("c", cr, cerr) + resStr("s", sr, serr) + pkStr(w)
 		if cr != nil {
 			out += " hash=" + hashIDs[cr.HashID]
@@ -1003,19 +1093,25 @@ func execKex(o hx.Op) string {
 		var sr *ssh.VerifKexResult
 		var serr error
 		var or oracle
-		var wg sync.WaitGroup
-		wg.Add(2)
-		go func() {
-			defer wg.Done()
-			defer sc.done()
-			sr, serr = ssh.VerifKexServer(m.name, sc, rand.Reader, svc, svs, sic, sis, []ssh.Signer{hk.signer}, algo)
-		}()
-		rp := r.Fork()
-		go func() {
-			defer wg.Done()
-			or = peerClient(m, cc, o.Str("t"), rp, o)
-		}()
-		wg.Wait()
+		for attempt := 0; ; attempt++ {
+			var wg sync.WaitGroup
+			wg.Add(2)
+			go func() {
+				defer wg.Done()
+				defer sc.done()
+				sr, serr = ssh.VerifKexServer(m.name, sc, rs, svc, svs, sic, sis, []ssh.Signer{hk.signer}, algo)
+			}()
+			rp := r.Fork()
+			go func() {
+				defer wg.Done()
+				or = peerClient(m, cc, o.Str("t"), rp, o)
+			}()
+			wg.Wait()
+			if want := lzWant(o, m); want == 0 || or.k == nil || leadingZeros(or.k) >= want || attempt >= 1<<13 {
+				break
+			}
+			cc, sc, w = newPair()
+		}
 		out += " c=- hc=- kc=-" + resStr("s", sr, serr) + pkStr(w) + or.String()
 		if sr != nil {
 			// the signature the server put on the wire must verify over the server's H (stdlib check)
@@ -1031,6 +1127,28 @@ func execKex(o hx.Op) string {
 		return "bad-op"
 	}
 	return out
+}
+
+// lzWant: number of leading zero bytes an `lzN` op asks of an ECDH secret (0 = not such an op)
+func lzWant(o hx.Op, m *method) int {
+	t := o.Str("t")
+	if m.kind != "ecdh" || !strings.HasPrefix(t, "lz") || len(t) < 3 {
+		return 0
+	}
+	return int(t[2] - '0')
+}
+
+// mpintZeros: leading zero bytes of the fixed-width x-coordinate behind an mpint-encoded K
+func mpintZeros(k []byte, m *method) int {
+	bl := (m.ecl.Params().BitSize + 7) / 8
+	if len(k) < 4 {
+		return 0
+	}
+	body := k[4:]
+	if len(body) > 0 && body[0] == 0 {
+		body = body[1:]
+	}
+	return bl - len(body)
 }
 
 func execChoose(o hx.Op) string {
@@ -1090,7 +1208,11 @@ func emitKex(g *hx.Gen, m string, hk, mode, t string, extra string) {
 	// clause-level input classes (see conf "clauses")
 	kind := methodByName(m).kind
 	ex := hx.Parse("x" + extra)
+	if strings.HasPrefix(t, "lz") {
+		g.Stat("secret.leading-zero." + kind + "." + t)
+	}
 	switch {
+	case strings.HasPrefix(t, "lz"):
 	case mode == "rr":
 		g.Stat("agree." + kind) // same H and K on both real sides
 		if strings.Contains(hk, "-cert-") {
@@ -1198,6 +1320,19 @@ func gen(g *hx.Gen) {
 				for _, t := range append(append([]string(nil), ecTampers...), pktTampers...) {
 					emitKex(g, m.name, hk, "pc", t, " mm=-")
 					emitKex(g, m.name, hk, "ps", t, " mm=-")
+				}
+				// shared x-coordinates with leading zero bytes (mpint K: stripped zeros / sign byte); the X25519 and
+				// DH counterparts are pre-computed in corpus/C29/leading_zero_secrets.ops
+				emitKex(g, m.name, hk, "pc", "lz1", " mm=-")
+				emitKex(g, m.name, hk, "ps", "lz1", " mm=-")
+				emitKex(g, m.name, hk, "rr", "lz1", " st=- mm=-")
+				if m.name == "ecdh-sha2-nistp256" || g.Thorough() {
+					emitKex(g, m.name, hk, "pc", "lz2n", " mm=-") // two zero bytes, next byte < 0x80
+					emitKex(g, m.name, hk, "pc", "lz2s", " mm=-") // two zero bytes, then the mpint sign byte is needed
+				}
+				if m.name == "ecdh-sha2-nistp256" && g.Thorough() && round == 0 {
+					emitKex(g, m.name, hk, "ps", "lz2", " mm=-")
+					emitKex(g, m.name, hk, "pc", "lz3", " mm=-")
 				}
 			case "c25519":
 				for _, t := range append(append([]string(nil), x25519Tampers...), pktTampers...) {
